@@ -33,6 +33,8 @@ inductive MsiSt where
 
 inductive ReqType where
   | evict | writeBack
+  /-- MVP-8.0 (`evict` / `writeBack` are its `l1Evict` / `l1WriteBack`) -/
+  | l3Evict | l3WriteBack
   deriving Repr, DecidableEq, Inhabited
 
 structure CmdKey where
@@ -56,6 +58,14 @@ structure Msi where
   /-- the infos whose `doneFlag` is set -/
   done : List Nat := []
   nextCmd : Nat := 0
+  /-- MVP-7.1 `staleState`: an eviction was requested, the control unit has to copy the states again -/
+  stale : Bool := false
+  /-- configuration: `true` = `proc/mvp8-0` (`setL1State` marks the copy stale; L3 locks and write marks below) -/
+  v80 : Bool := false
+  /-- MVP-8.0 `l3Lock`: the L3 lines (128-byte aligned) whose `sync.Mutex` is locked -/
+  l3Locked : List Int := []
+  /-- MVP-8.0 `l3Write`: the L3 lines written since they were fetched -/
+  l3Write : List Int := []
   deriving Repr, Inhabited
 
 /-- the POST closure of `rLock` / `lock`: `setState(id, addrs, st)` (optional), then `RUnlock` / `Unlock` -/
@@ -85,6 +95,35 @@ inductive WCo where
 inductive SnoopJob where
   | evict (key : CmdKey) (cmd : Nat)
   | writeBack (cycles : Int) (key : CmdKey) (cmd : Nat)
+  /-- MVP-8.0 -/
+  | l3Evict (key : CmdKey) (cmd : Nat)
+  | l1WriteBack80 (c1 c2 c3 : Int) (key : CmdKey) (cmd : Nat)
+  | l3WriteBack (cycles : Int) (key : CmdKey) (cmd : Nat)
+  deriving Repr, Inhabited
+
+/-- MVP-8.0: the closure states of `coRead` -/
+inductive RCo80 where
+  | start
+  | pend (notFromL1 : Bool) (pendings : List Nat)
+  | l3Wait (c : Int)
+  | memWait (c : Int)
+  | lockWait
+  | fillWait (c : Int)
+  | evictWait (pending : Option Nat)
+  | l1Wait (c : Int) (data : List Byte)
+  deriving Repr, Inhabited
+
+/-- MVP-8.0: the closure states of `coWrite` -/
+inductive WCo80 where
+  | start
+  | pend (notFromL1 : Bool) (pendings : List Nat)
+  | l1PushWait (c : Int) (l1Addr : Int) (l1Data : List Byte)
+  | evictWait (pending : Option Nat)
+  | memWait (c : Int)
+  | l3Wait (c : Int)
+  | l3EvictWait (pending : Option Nat)
+  | afterL1 (c : Int)
+  | l1Wait (c : Int)
   deriving Repr, Inhabited
 
 structure CC where
@@ -95,6 +134,8 @@ structure CC where
   rlockSems : List Int := []
   lockSems : List Int := []
   post : Option Post := none
+  read80 : RCo80 := .start
+  write80 : WCo80 := .start
   deriving Repr, Inhabited
 
 /-- the closure states of an execute unit's coroutine -/
@@ -112,6 +153,8 @@ structure State where
   msi : Msi := {}
   /-- inside the final loop of `Run` (after the main loop) -/
   drain : Bool := false
+  /-- MVP-8.0: the shared L3 (`msi.v80` is the configuration flag) -/
+  l3 : LineCache.Cache := default
   deriving Inhabited
 
 /-! ## msi.go -/
@@ -130,6 +173,11 @@ def getState (m : Msi) (id : Nat) (a : Int) : MsiSt :=
 def setState (m : Msi) (id : Nat) (a : Int) (st : MsiSt) : Msi :=
   { m with states := ((id, a), st) :: m.states.filter (fun e => e.1 != (id, a)) }
 
+/-- `setState` / MVP-8.0 `setL1State` (which also sets `staleState`) — used by the POST closures -/
+def setL1State (m : Msi) (id : Nat) (a : Int) (st : MsiSt) : Msi :=
+  let m := setState m id a st
+  if m.v80 then { m with stale := true } else m
+
 /-- `sem.RLock()` / `sem.Lock()` on the semaphore of line `a`: `none` = refused -/
 def rLockSem (m : Msi) (a : Int) : Option Msi :=
   let s := getSem m a
@@ -145,7 +193,7 @@ def unlockSem (m : Msi) (a : Int) : M Msi :=
   if s.write - 1 < 0 then throw (.panic "write is negative") else pure (setSem m a { s with write := s.write - 1 })
 
 def runPost (m : Msi) (p : Post) : M Msi :=
-  let m := match p.setTo with | some st => setState m p.id p.addr st | none => m
+  let m := match p.setTo with | some st => setL1State m p.id p.addr st | none => m
   if p.write then unlockSem m p.addr else rUnlockSem m p.addr
 
 /-- `sendNewMSICommand(id, alignedAddr, request)` -/
@@ -204,13 +252,29 @@ def evictExtra (m : Msi) (id : Nat) (a : Int) : Msi × Option Nat :=
   match getState m id a with
   | .shared => let (m, c) := sendCommand m id a .evict; (m, some c)
   | .modified => let (m, c) := sendCommand m id a .writeBack; (m, some c)
-  | .invalid => (m, none)
+  -- MVP-8.0 `evictL1ExtraCacheLine`: `case shared, invalid: l1Evict`
+  | .invalid => if m.v80 then (let (m, c) := sendCommand m id a .evict; (m, some c)) else (m, none)
 
 /-- `info.done()`: `doneFlag = true`; the callback resets the state and deletes the command -/
 def cmdDone (m : Msi) (key : CmdKey) (cmd : Nat) : Msi :=
   let m := { m with done := cmd :: m.done }
   let m := setState m key.id key.addr .invalid
   { m with commands := m.commands.filter (fun e => e.1 != key) }
+
+/-- `info.done()` of an L3 command (MVP-8.0): the callback only deletes the command -/
+def cmdDoneL3 (m : Msi) (key : CmdKey) (cmd : Nat) : Msi :=
+  { m with done := cmd :: m.done, commands := m.commands.filter (fun e => e.1 != key) }
+
+/-- MVP-8.0 `evictL3ExtraCacheLine(id, alignedAddr)` -/
+def evictL3Extra (m : Msi) (id : Nat) (a : Int) : Msi × Nat :=
+  sendCommand m id a (if m.l3Write.contains a then .l3WriteBack else .l3Evict)
+
+def l3Align (a : Int) : Int := a - a.tmod Gen.Consts.mvp8_0.l3CacheLineSize
+
+/-- `mu.TryLock()` on the mutex of L3 line `a`: `none` = it is locked -/
+def l3TryLock (m : Msi) (a : Int) : Option Msi :=
+  if m.l3Locked.contains a then none else some { m with l3Locked := a :: m.l3Locked }
+def l3Unlock (m : Msi) (a : Int) : Msi := { m with l3Locked := m.l3Locked.filter (· != a) }
 
 def allDone (m : Msi) (ps : List Nat) : Bool := ps.all (fun c => m.done.contains c)
 
@@ -377,6 +441,277 @@ def ccWrite (s : State) (i : Nat) (addrs : List Word) (data : List Byte) : M (St
   | .evictWait pending cycles post => writeEvictStep s i a addrs data pending cycles post
   | .l1Wait cycles => writeL1Step s i a addrs data cycles
 
+
+/-! ## cc.go of MVP-8.0: the shared L3 between the L1s and memory -/
+
+def cfgL3 : Model.Mmu.Config :=
+  { l1ILineSize := Gen.Consts.mvp8_0.l1ICacheLineSize, l1ISize := Gen.Consts.mvp8_0.l1ICacheSize,
+    l1DLineSize := Gen.Consts.mvp8_0.l3CacheLineSize, l1DSize := Gen.Consts.mvp8_0.l3CacheSize }
+
+/-- `cc.isAddressInL3(addrs)`: `l3.Get(addrs[0])` (a hit refreshes the recency) -/
+def inL3 (s : State) (addrs : List Word) : M (Bool × State) :=
+  match addrs with
+  | [] => throw (.panic "index out of range")
+  | a :: _ => do
+    let (v, c) ← LineCache.get s.l3 a.toInt
+    pure (v.isSome, { s with l3 := c })
+
+/-- MVP-8.0 `pushLineToL1` (with its assertions) -/
+def pushLineToL1_80 (cc : CC) (a : Int) (line : List Byte) : M (Option LineCache.Line × CC) :=
+  if (line.length : Int) != Gen.Consts.mvp8_0.l1DCacheLineSize || a.tmod Gen.Consts.mvp8_0.l1DCacheLineSize != 0 then
+    throw (.panic "invalid state")
+  else pushLineToL1 cc a line
+
+/-- MVP-8.0 `pushLineToL3` -/
+def pushLineToL3 (s : State) (a : Int) (line : List Byte) : M (Option LineCache.Line × State) :=
+  if (line.length : Int) != Gen.Consts.mvp8_0.l3CacheLineSize || a.tmod Gen.Consts.mvp8_0.l3CacheLineSize != 0 then
+    throw (.panic "invalid state")
+  else do
+    let (v, c) ← LineCache.get s.l3 a
+    match v with
+    | some _ => pure (none, { s with l3 := c })
+    | none =>
+      let (ev, c) := LineCache.pushLineWithEvictionWarning c a line
+      pure (ev, { s with l3 := Model.Mmu.fixHead c })
+
+/-- `cc.writeToL3(l1Addr, data)` -/
+def writeToL3 (s : State) (l1Addr : Int) (data : List Byte) : M State := do
+  let c ← LineCache.write s.l3 l1Addr data
+  let a3 := l3Align l1Addr
+  pure { s with l3 := c, msi := { s.msi with l3Write := a3 :: s.msi.l3Write.filter (· != a3) } }
+
+def l3AlignOf (addrs : List Word) : M Int :=
+  match addrs with
+  | [] => throw (.panic "index out of range")
+  | a :: _ => pure (l3Align a.toInt)
+
+/-- the last closure of `coReadFromL1` (`ExecuteWithCheckpointAfter(L1Access, …)`) -/
+def r80L1Step (s : State) (i : Nat) (a : Int) (c : Int) (data : List Byte) : M (State × Option (List Byte)) := do
+  let cc ← getCC s i
+  if c > 0 then pure (setCC s i { cc with read80 := .l1Wait (c - 1) data }, none)
+  else
+    match cc.post with
+    | none => throw (.panic "nil post")
+    | some p => do
+      let m ← runPost s.msi p
+      let cc := { cc with post := none, read80 := .start, rlockSems := cc.rlockSems.filter (· != a) }
+      pure ({ setCC s i cc with msi := m }, some data)
+
+/-- `coReadFromL1` -/
+def r80FromL1 (s : State) (i : Nat) (a : Int) (addrs : List Word) : M (State × Option (List Byte)) := do
+  let cc ← getCC s i
+  let (data, cc) ← getFromL1 cc addrs
+  r80L1Step (setCC s i cc) i a Gen.Latency.L1Access data
+
+/-- `coSyncReadFromL1` -/
+def r80Sync (s : State) (i : Nat) (a : Int) (addrs : List Word) : M (State × Option (List Byte)) := do
+  match ← LineCache.getSubCacheLine s.l3 (addrs.map (·.toInt)) Gen.Consts.mvp8_0.l1DCacheLineSize with
+  | none => throw (.panic "invalid state")
+  | some (l1Addr, l1Data) => do
+    let cc ← getCC s i
+    let (ev, cc) ← pushLineToL1_80 cc l1Addr l1Data
+    match ev with
+    | some line =>
+      let (m, pending) := evictExtra s.msi i line.lo
+      pure ({ setCC s i { cc with read80 := .evictWait pending } with msi := m }, none)
+    | none => r80FromL1 (setCC s i cc) i a addrs
+
+/-- the closure that copies the block into L3 (the lock is held) -/
+def r80Fill (s : State) (i : Nat) (a : Int) (addrs : List Word) (c : Int) : M (State × Option (List Byte)) := do
+  let cc ← getCC s i
+  if c > 0 then pure (setCC s i { cc with read80 := .fillWait (c - 1) }, none)
+  else
+    match addrs with
+    | [] => throw (.panic "index out of range")
+    | a0 :: _ => do
+      let a3 := l3Align a0.toInt
+      let data ← Model.Mmu.fetchCacheLine cfgL3 s.base.ctx.Memory a0
+      let (ev, s) ← pushLineToL3 s a3 data
+      let s := { s with msi := l3Unlock s.msi a3 }
+      -- the `Checkpoint` that would wait for the eviction is overwritten at once (no `return` behind it in `coRead`)
+      let s := match ev with
+        | some line => { s with msi := (evictL3Extra s.msi i line.lo).1 }
+        | none => s
+      r80Sync s i a addrs
+
+/-- the closure polling the L3 mutex -/
+def r80Lock (s : State) (i : Nat) (a : Int) (addrs : List Word) : M (State × Option (List Byte)) := do
+  let cc ← getCC s i
+  let a3 ← l3AlignOf addrs
+  match l3TryLock s.msi a3 with
+  | none => pure (setCC s i { cc with read80 := .lockWait }, none)
+  | some m => r80Fill { s with msi := m } i a addrs Gen.Latency.L3Access
+
+def r80Mem (s : State) (i : Nat) (a : Int) (addrs : List Word) (c : Int) : M (State × Option (List Byte)) := do
+  let cc ← getCC s i
+  if c > 0 then pure (setCC s i { cc with read80 := .memWait (c - 1) }, none)
+  else r80Lock s i a addrs
+
+def r80L3 (s : State) (i : Nat) (a : Int) (addrs : List Word) (c : Int) : M (State × Option (List Byte)) := do
+  let cc ← getCC s i
+  if c > 0 then pure (setCC s i { cc with read80 := .l3Wait (c - 1) }, none)
+  else do
+    let (hit, s) ← inL3 s addrs
+    if hit then r80Sync s i a addrs
+    else r80Mem s i a addrs Gen.Latency.MemoryAccess
+
+def r80Pend (s : State) (i : Nat) (a : Int) (addrs : List Word) (nf : Bool) (ps : List Nat) : M (State × Option (List Byte)) := do
+  let cc ← getCC s i
+  if !allDone s.msi ps then pure (setCC s i { cc with read80 := .pend nf ps }, none)
+  else if !nf then r80FromL1 s i a addrs
+  else
+    match ← LineCache.getCacheLine cc.l1d a with
+    | some _ => throw (.panic "invalid state")
+    | none => r80L3 s i a addrs Gen.Latency.L3Access
+
+/-- MVP-8.0 `cc.read.Cycle(…)` -/
+def ccRead80 (s : State) (i : Nat) (addrs : List Word) : M (State × Option (List Byte)) := do
+  let cc ← getCC s i
+  let a ← alignOf addrs
+  match cc.read80 with
+  | .start =>
+    let (m, resp) := rLock s.msi i a
+    match resp with
+    | none => pure ({ s with msi := m }, none)
+    | some (nf, ps, post) =>
+      let s := { setCC s i { cc with post := some post, rlockSems := a :: cc.rlockSems.filter (· != a) } with msi := m }
+      r80Pend s i a addrs nf ps
+  | .pend nf ps => r80Pend s i a addrs nf ps
+  | .l3Wait c => r80L3 s i a addrs c
+  | .memWait c => r80Mem s i a addrs c
+  | .lockWait => r80Lock s i a addrs
+  | .fillWait c => r80Fill s i a addrs c
+  | .evictWait pending =>
+    match pending with
+    | some c => if !s.msi.done.contains c then pure (s, none) else r80FromL1 s i a addrs
+    | none => r80FromL1 s i a addrs
+  | .l1Wait c data => r80L1Step s i a c data
+
+/-- the last closure of `coWriteToL1` -/
+def w80L1Step (s : State) (i : Nat) (a : Int) (addrs : List Word) (data : List Byte) (c : Int) : M (State × Bool) := do
+  let cc ← getCC s i
+  if c > 0 then pure (setCC s i { cc with write80 := .l1Wait (c - 1) }, false)
+  else
+    match addrs with
+    | [] => throw (.panic "index out of range")
+    | a0 :: _ => do
+      let l ← LineCache.write cc.l1d a0.toInt data
+      match cc.post with
+      | none => throw (.panic "nil post")
+      | some p => do
+        let m ← runPost s.msi p
+        let cc := { cc with l1d := l, post := none, write80 := .start, lockSems := cc.lockSems.filter (· != a) }
+        pure ({ setCC s i cc with msi := m }, true)
+
+/-- `coWriteToL1` -/
+def w80ToL1 (s : State) (i : Nat) (a : Int) (addrs : List Word) (data : List Byte) : M (State × Bool) :=
+  w80L1Step s i a addrs data Gen.Latency.L1Access
+
+/-- `ExecuteWithCheckpointAfter(r, L1Access, cc.coWriteToL1)` -/
+def w80AfterL1 (s : State) (i : Nat) (a : Int) (addrs : List Word) (data : List Byte) (c : Int) : M (State × Bool) := do
+  let cc ← getCC s i
+  if c > 0 then pure (setCC s i { cc with write80 := .afterL1 (c - 1) }, false)
+  else w80ToL1 s i a addrs data
+
+/-- pushing the line into L1, then `coWriteToL1` (directly, or after the eviction of the overflow line) -/
+def w80PushL1 (s : State) (i : Nat) (a : Int) (addrs : List Word) (data : List Byte) (l1Addr : Int) (l1Data : List Byte) :
+    M (State × Bool) := do
+  let cc ← getCC s i
+  let (ev, cc) ← pushLineToL1_80 cc l1Addr l1Data
+  match ev with
+  | some line =>
+    let (m, pending) := evictExtra s.msi i line.lo
+    pure ({ setCC s i { cc with write80 := .evictWait pending } with msi := m }, false)
+  | none => w80ToL1 (setCC s i cc) i a addrs data
+
+/-- `coSyncWriteToL1` -/
+def w80Sync (s : State) (i : Nat) (a : Int) (addrs : List Word) (data : List Byte) : M (State × Bool) := do
+  match ← LineCache.getSubCacheLine s.l3 (addrs.map (·.toInt)) Gen.Consts.mvp8_0.l1DCacheLineSize with
+  | none => throw (.panic "invalid state")
+  | some (l1Addr, l1Data) => w80PushL1 s i a addrs data l1Addr l1Data
+
+/-- the body behind the two waits of the "fetch from memory" branch of `coWrite` -/
+def w80Fetch (s : State) (i : Nat) (a : Int) (addrs : List Word) (data : List Byte) : M (State × Bool) := do
+  let cc ← getCC s i
+  let a3 ← l3AlignOf addrs
+  match l3TryLock s.msi a3 with
+  | none => pure (setCC s i { cc with write80 := .l3Wait 0 }, false)
+  | some _ =>
+    -- `mu.Unlock()` at once
+    match addrs with
+    | [] => throw (.panic "index out of range")
+    | a0 :: _ => do
+      let line ← Model.Mmu.fetchCacheLine cfgL3 s.base.ctx.Memory a0
+      let (ev, s) ← pushLineToL3 s a3 line
+      match ev with
+      | some l =>
+        let (m, pending) := evictL3Extra s.msi i l.lo
+        let cc ← getCC s i
+        pure ({ setCC s i { cc with write80 := .l3EvictWait (some pending) } with msi := m }, false)
+      | none => w80Sync s i a addrs data
+
+def w80L3 (s : State) (i : Nat) (a : Int) (addrs : List Word) (data : List Byte) (c : Int) : M (State × Bool) := do
+  let cc ← getCC s i
+  if c > 0 then pure (setCC s i { cc with write80 := .l3Wait (c - 1) }, false)
+  else w80Fetch s i a addrs data
+
+def w80Mem (s : State) (i : Nat) (a : Int) (addrs : List Word) (data : List Byte) (c : Int) : M (State × Bool) := do
+  let cc ← getCC s i
+  if c > 0 then pure (setCC s i { cc with write80 := .memWait (c - 1) }, false)
+  else w80L3 s i a addrs data Gen.Latency.L3Access
+
+def w80L1Push (s : State) (i : Nat) (a : Int) (addrs : List Word) (data : List Byte) (c : Int) (l1Addr : Int)
+    (l1Data : List Byte) : M (State × Bool) := do
+  let cc ← getCC s i
+  if c > 0 then pure (setCC s i { cc with write80 := .l1PushWait (c - 1) l1Addr l1Data }, false)
+  else w80PushL1 s i a addrs data l1Addr l1Data
+
+def w80Pend (s : State) (i : Nat) (a : Int) (addrs : List Word) (data : List Byte) (nf : Bool) (ps : List Nat) :
+    M (State × Bool) := do
+  let cc ← getCC s i
+  if !allDone s.msi ps then pure (setCC s i { cc with write80 := .pend nf ps }, false)
+  else if !nf then w80ToL1 s i a addrs data
+  else do
+    let (hit, s) ← inL3 s addrs
+    if hit then
+      match ← LineCache.getSubCacheLine s.l3 (addrs.map (·.toInt)) Gen.Consts.mvp8_0.l1DCacheLineSize with
+      | none => throw (.panic "invalid state")
+      | some (l1Addr, l1Data) => w80L1Push s i a addrs data Gen.Latency.L1Access l1Addr l1Data
+    else w80Mem s i a addrs data Gen.Latency.MemoryAccess
+
+/-- MVP-8.0 `cc.write.Cycle(…)` -/
+def ccWrite80 (s : State) (i : Nat) (addrs : List Word) (data : List Byte) : M (State × Bool) := do
+  let cc ← getCC s i
+  let a ← alignOf addrs
+  match cc.write80 with
+  | .start =>
+    let (m, resp) := lock s.msi i a
+    match resp with
+    | none => pure ({ s with msi := m }, false)
+    | some (nf, ps, post) =>
+      let s := { setCC s i { cc with post := some post, lockSems := a :: cc.lockSems.filter (· != a) } with msi := m }
+      w80Pend s i a addrs data nf ps
+  | .pend nf ps => w80Pend s i a addrs data nf ps
+  | .l1PushWait c l1Addr l1Data => w80L1Push s i a addrs data c l1Addr l1Data
+  | .evictWait pending =>
+    match pending with
+    | some c => if !s.msi.done.contains c then pure (s, false) else w80AfterL1 s i a addrs data Gen.Latency.L1Access
+    | none => w80AfterL1 s i a addrs data Gen.Latency.L1Access
+  | .memWait c => w80Mem s i a addrs data c
+  | .l3Wait c => w80L3 s i a addrs data c
+  | .l3EvictWait pending =>
+    match pending with
+    | some c => if !s.msi.done.contains c then pure (s, false) else w80Sync s i a addrs data
+    | none => w80Sync s i a addrs data
+  | .afterL1 c => w80AfterL1 s i a addrs data c
+  | .l1Wait c => w80L1Step s i a addrs data c
+
+/-- `cc.read.Cycle` / `cc.write.Cycle` of the configured machine -/
+def ccReadD (s : State) (i : Nat) (addrs : List Word) : M (State × Option (List Byte)) :=
+  if s.msi.v80 then ccRead80 s i addrs else ccRead s i addrs
+def ccWriteD (s : State) (i : Nat) (addrs : List Word) (data : List Byte) : M (State × Bool) :=
+  if s.msi.v80 then ccWrite80 s i addrs data else ccWrite s i addrs data
+
 /-- one closure of the snoop list: `true` = finished (removed from the list) -/
 def snoopJob (s : State) (i : Nat) (j : SnoopJob) : M (State × Option SnoopJob) := do
   let cc ← getCC s i
@@ -397,6 +732,58 @@ def snoopJob (s : State) (i : Nat) (j : SnoopJob) : M (State × Option SnoopJob)
         | some _ =>
           let s := { s with base := { s.base with ctx := { s.base.ctx with Memory := mem } } }
           pure ({ setCC s i { cc with l1d := c } with msi := cmdDone s.msi key cmd }, none)
+  | .l3Evict key cmd =>
+    let a3 := l3Align key.addr
+    match l3TryLock s.msi a3 with
+    | some m => pure ({ s with msi := m }, some j)      -- `if mu.TryLock() { return false }`
+    | none => do
+      let (_, c) ← LineCache.evictCacheLine s.l3 key.addr
+      let m := { s.msi with l3Write := s.msi.l3Write.filter (· != key.addr) }
+      pure ({ s with l3 := c, msi := l3Unlock (cmdDoneL3 m key cmd) a3 }, none)
+  | .l1WriteBack80 c1 c2 c3 key cmd =>
+    if c1 > 0 then pure (s, some (.l1WriteBack80 (c1 - 1) c2 c3 key cmd))
+    else
+      match ← LineCache.getCacheLine cc.l1d key.addr with
+      | none => throw (.panic "memory address should exist")
+      | some data => do
+        let (v, l3) ← LineCache.get s.l3 key.addr
+        let s := { s with l3 := l3 }
+        if v.isNone then
+          if c2 > 0 then pure (s, some (.l1WriteBack80 c1 (c2 - 1) c3 key cmd))
+          else do
+            let mem ← Model.Mmu.writeToMemory s.base.ctx.Memory key.addr data
+            let (ev, c) ← LineCache.evictCacheLine cc.l1d key.addr
+            match ev with
+            | none => throw (.panic "invalid state")
+            | some _ =>
+              let s := { s with base := { s.base with ctx := { s.base.ctx with Memory := mem } } }
+              pure ({ setCC s i { cc with l1d := c } with msi := cmdDone s.msi key cmd }, none)
+        else
+          if c3 > 0 then pure (s, some (.l1WriteBack80 c1 c2 (c3 - 1) key cmd))
+          else do
+            let s ← writeToL3 s key.addr data
+            let (ev, c) ← LineCache.evictCacheLine cc.l1d key.addr
+            match ev with
+            | none => throw (.panic "invalid state")
+            | some _ => pure ({ setCC s i { cc with l1d := c } with msi := cmdDone s.msi key cmd }, none)
+  | .l3WriteBack cycles key cmd =>
+    if cycles > 0 then pure (s, some (.l3WriteBack (cycles - 1) key cmd))
+    else
+      let a3 := l3Align key.addr
+      match l3TryLock s.msi a3 with
+      | some m => pure ({ s with msi := m }, some j)
+      | none =>
+        match ← LineCache.getCacheLine s.l3 key.addr with
+        | none => throw (.panic "memory address should exist")
+        | some data => do
+          let mem ← Model.Mmu.writeToMemory s.base.ctx.Memory key.addr data
+          let (ev, c) ← LineCache.evictCacheLine s.l3 key.addr
+          let m := { s.msi with l3Write := s.msi.l3Write.filter (· != key.addr) }
+          match ev with
+          | none => throw (.panic "invalid state")
+          | some _ =>
+            let s := { s with base := { s.base with ctx := { s.base.ctx with Memory := mem } } }
+            pure ({ s with l3 := c, msi := l3Unlock (cmdDoneL3 m key cmd) a3 }, none)
 
 def snoopJobs (i : Nat) : List SnoopJob → State → List SnoopJob → M (State × List SnoopJob)
   | [], s, keep => pure (s, keep)
@@ -418,10 +805,22 @@ def snoopCycle (s : State) (i : Nat) : M State := do
     if reqs.length > 1 then throw (.panic mapOrderMsg)
     else do
       let cc ← getCC s i
+      -- MVP-8.0 `assertAddrInState`: an `l1Evict` request must find the line shared, an `l1WriteBack` request modified
+      if s.msi.v80 && reqs.any (fun e => (e.1.req == .evict && getState s.msi i e.1.addr != .shared) ||
+                                          (e.1.req == .writeBack && getState s.msi i e.1.addr != .modified)) then
+        throw (.panic "invalid state: expected …, got …")
+      else
       let jobs := reqs.map fun e => match e.1.req with
         | .evict => SnoopJob.evict e.1 e.2
-        | .writeBack => SnoopJob.writeBack Gen.Latency.MemoryAccess e.1 e.2
-      pure (setCC s i { cc with snoop := cc.snoop ++ jobs })
+        | .writeBack => if s.msi.v80 then SnoopJob.l1WriteBack80 Gen.Latency.L3Access Gen.Latency.MemoryAccess Gen.Latency.L3Access e.1 e.2
+                        else SnoopJob.writeBack Gen.Latency.MemoryAccess e.1 e.2
+        | .l3Evict => SnoopJob.l3Evict e.1 e.2
+        | .l3WriteBack => SnoopJob.l3WriteBack Gen.Latency.MemoryAccess e.1 e.2
+      -- MVP-7.1: `case evict: cc.msi.staleState = true` (the flag exists from MVP-7.1 on; nobody reads it before);
+      -- MVP-8.0: also `case l1WriteBack`
+      let m := if reqs.any (fun e => e.1.req == .evict || (s.msi.v80 && e.1.req == .writeBack)) then { s.msi with stale := true }
+               else s.msi
+      pure { setCC s i { cc with snoop := cc.snoop ++ jobs } with msi := m }
 
 def snoopAll (s : State) : M State :=
   (List.range s.ccs.length).foldlM (fun s i => snoopCycle s i) s
@@ -431,10 +830,12 @@ def ccFlush (s : State) (i : Nat) : M State := do
   let cc ← getCC s i
   let m ← cc.rlockSems.foldlM (fun m a => rUnlockSem m a) s.msi
   let m ← cc.lockSems.foldlM (fun m a => unlockSem m a) m
-  pure { setCC s i { cc with read := .start, write := .start, rlockSems := [], lockSems := [] } with msi := m }
+  pure { setCC s i { cc with read := .start, write := .start, read80 := .start, write80 := .start, rlockSems := [],
+                              lockSems := [] } with msi := m }
 
 def ccIsStart (cc : CC) : Bool :=
-  (match cc.read with | .start => true | _ => false) && (match cc.write with | .start => true | _ => false)
+  (match cc.read with | .start => true | _ => false) && (match cc.write with | .start => true | _ => false) &&
+  (match cc.read80 with | .start => true | _ => false) && (match cc.write80 with | .start => true | _ => false)
 
 /-! ## eu.go -/
 
@@ -447,7 +848,7 @@ def setEuB (s : State) (i : Nat) (eu : ExecUnit) : State := { s with base := Mod
 /-- `executeUnit.run(r)` -/
 def euRun70 (app : App) (s : State) (i : Nat) (eu : ExecUnit) (r : Runner) (cyc : Int) : M (State × EuOut) := do
   let s := setCo s i .start
-  match (Model.Mvp61.instrOf s.base r).run s.base.ctx app.labels r.pc eu.memory 0#32 with
+  match (Model.Mvp61.instrOf s.base r).run s.base.ctx app.labels r.pc eu.memory (if s.base.v71 then r.seq else 0#32) with
   | .ok e =>
     if !e.Return && e.MemoryChange then
       -- a store: `executionToMemoryChanges`, then the closure polling `cc.write`, executed at once
@@ -456,7 +857,7 @@ def euRun70 (app : App) (s : State) (i : Nat) (eu : ExecUnit) (r : Runner) (cyc 
       let data := chs.map (·.2)
       let s := { setEuB s i eu with base := { (setEuB s i eu).base with executed := s.base.executed + 1 } }
       let s := setCo s i (.writing addrs data)
-      let (s, done) ← ccWrite s i addrs data
+      let (s, done) ← ccWriteD s i addrs data
       pure (if done then setCo s i .start else s, .none)
     else do
       let (b, out) ← Model.Mvp61.euRun app s.base i eu r cyc
@@ -468,7 +869,7 @@ def euRun70 (app : App) (s : State) (i : Nat) (eu : ExecUnit) (r : Runner) (cyc 
 /-- the closure polling `cc.read` -/
 def euReadPoll (app : App) (s : State) (i : Nat) (eu : ExecUnit) (r : Runner) (addrs : List Word) (cyc : Int) :
     M (State × EuOut) := do
-  let (s, d) ← ccRead s i addrs
+  let (s, d) ← ccReadD s i addrs
   match d with
   | none => pure (s, .none)
   | some data =>
@@ -484,9 +885,18 @@ def euPrepare70 (app : App) (s : State) (i : Nat) (eu : ExecUnit) (r : Runner) (
     | some (b, eu, r) =>
       let b := Model.Mvp61.buAssert b r
       let s := setEuB { s with base := b } i eu
-      let addrs := (Model.Mvp61.instrOf b r).memoryRead b.ctx 0#32
+      let addrs := (Model.Mvp61.instrOf b r).memoryRead b.ctx (if b.v71 then r.seq else 0#32)
       if !addrs.isEmpty then euReadPoll app (setCo s i (.reading addrs)) i eu r addrs cyc
       else euRun70 app s i eu r cyc
+
+/-- MVP-7.1 `eu.isPendingMessages()`: an instruction not younger than `eu.sequenceID` waits in the execute bus -/
+def pendingMessages (s : State) (i : Nat) : Bool :=
+  s.base.v71 && match s.base.eus[i]? with
+    | some eu => s.base.executeBus.exists_ (fun r => r.seq.sle eu.sequenceID)
+    | none => false
+
+/-- the unit is to be cycled by the drain loops: `!eu.isEmpty()` (MVP-7.1: `|| eu.isPendingMessages()`) -/
+def euBusy (s : State) (i : Nat) : Bool := !coIsStart (getCo s i) || pendingMessages s i
 
 /-- `executeUnit.Cycle(euReq{cyc, app})` of unit `i` -/
 def euCycle70 (app : App) (s : State) (i : Nat) (cyc : Int) : M (State × EuOut) :=
@@ -494,13 +904,17 @@ def euCycle70 (app : App) (s : State) (i : Nat) (cyc : Int) : M (State × EuOut)
   | none => throw (.panic "execute unit index")
   | some eu =>
     if Model.Mvp61.euPre eu then do
+      -- MVP-7.1: `if eu.isPendingMessages() { panic("invalid state") }`
+      if pendingMessages s i then throw (.panic "invalid state")
       -- `eu.flush()`: `Reset`, `sequenceID = 0`, `cc.flush()`
       let s ← ccFlush (setCo (setEuB s i { eu with sequenceID := 0 }) i .start) i
       pure (s, .none)
     else
     match getCo s i with
     | .start =>
-      let (x, inBus) := s.base.executeBus.get
+      -- MVP-7.1: `u.inBus.Pick(…)`: the first instruction without preferred core, or whose preferred core is this one
+      let (x, inBus) := if s.base.v71 then s.base.executeBus.pick (fun r => r.euPref.isNone || r.euPref == some i)
+                        else s.base.executeBus.get
       let s := { s with base := { s.base with executeBus := inBus } }
       match x with
       | none => pure (s, .none)
@@ -516,7 +930,7 @@ def euCycle70 (app : App) (s : State) (i : Nat) (cyc : Int) : M (State × EuOut)
       | none => throw (.panic "nil runner")
       | some r => euReadPoll app s i eu r addrs cyc
     | .writing addrs data => do
-      let (s, done) ← ccWrite s i addrs data
+      let (s, done) ← ccWriteD s i addrs data
       pure (if done then setCo s i .start else s, .none)
 
 /-! ## cpu.go -/
@@ -546,6 +960,32 @@ def finish70 (s : State) (h : Halt) : M (State × Event) := do
   let ctx := { s.base.ctx.ratCommit.ratFlush with Memory := mem }
   pure ({ s with base := { s.base with ctx := ctx, cycles := s.base.cycles + extra, mode := .normal } }, .done h)
 
+/-- MVP-8.0: `cc.writeBack()` of every core, `l3WriteBack()`, `RATCommit`, `RATFlush` -/
+def finish80 (s : State) (h : Halt) : M (State × Event) := do
+  let (s, extra) ← (List.range s.ccs.length).foldlM (fun (acc : State × Int) i => do
+      let cc ← getCC acc.1 i
+      (LineCache.existingLines cc.l1d).foldlM (fun (acc : State × Int) l =>
+        if getState acc.1.msi i l.lo != .modified then pure acc
+        else do
+          let (v, l3) ← LineCache.get acc.1.l3 l.lo
+          let s := { acc.1 with l3 := l3 }
+          if v.isSome then
+            if s.msi.l3Locked.contains (l3Align l.lo) then throw (.panic "invalid state")
+            else do
+              let s ← writeToL3 s l.lo l.data
+              pure (s, acc.2 + Gen.Latency.L3Access)
+          else do
+            let mem ← Model.Mmu.writeToMemory s.base.ctx.Memory l.lo l.data
+            pure ({ s with base := { s.base with ctx := { s.base.ctx with Memory := mem } } }, acc.2 + Gen.Latency.MemoryAccess)) acc)
+    (s, 0)
+  let (mem, extra) ← s.l3.lines.foldlM (fun (acc : List Byte × Int) l =>
+      if s.msi.l3Locked.contains (l3Align l.lo) then throw (.panic "invalid state")
+      else do
+        let mem ← Model.Mmu.writeToMemory acc.1 l.lo l.data
+        pure (mem, acc.2 + Gen.Latency.MemoryAccess)) (s.base.ctx.Memory, extra)
+  let ctx := { s.base.ctx.ratCommit.ratFlush with Memory := mem }
+  pure ({ s with base := { s.base with ctx := ctx, cycles := s.base.cycles + extra, mode := .normal } }, .done h)
+
 def eusCycle70 (app : App) : Nat → Nat → State → EuAcc → M (State × EuAcc)
   | 0, _, s, acc => pure (s, acc)
   | n + 1, i, s, acc =>
@@ -565,7 +1005,7 @@ def eusCycleBusy70 (app : App) : Nat → Nat → State → M (State × Bool)
   | 0, _, s => pure (s, false)
   | n + 1, i, s =>
     if i ≥ s.base.eus.length then pure (s, false)
-    else if coIsStart (getCo s i) then eusCycleBusy70 app n (i + 1) s
+    else if !euBusy s i then eusCycleBusy70 app n (i + 1) s
     else do
       let (s, out) ← euCycle70 app s i s.base.cycles
       match out with
@@ -576,7 +1016,7 @@ def eusCycleFlush70 (app : App) (fromCycle : Int) : Nat → Nat → State → Fl
   | 0, _, s, acc => pure (s, acc)
   | n + 1, i, s, acc =>
     if i ≥ s.base.eus.length then pure (s, acc)
-    else if coIsStart (getCo s i) then eusCycleFlush70 app fromCycle n (i + 1) s acc
+    else if !euBusy s i then eusCycleFlush70 app fromCycle n (i + 1) s acc
     else do
       let acc := { acc with isEmpty := false }
       let (s, out) ← euCycle70 app s i fromCycle
@@ -605,7 +1045,7 @@ def goRetB70 (s : State) : State × Event :=
   else toDrain { s with base := { s.base with mode := .normal } }
 
 def goRetA70 (s : State) : State × Event :=
-  if !eusEmpty s then ({ s with base := { s.base with mode := .retA } }, .running)
+  if (List.range s.base.eus.length).any (euBusy s) then ({ s with base := { s.base with mode := .retA } }, .running)
   else
     let b := { s.base with cycles := s.base.cycles + 1 }
     goRetB70 { s with base := { b with writeBus := b.writeBus.connect b.cycles } }
@@ -633,6 +1073,18 @@ def goFlushW70 (s : State) (seq pc : Word) (fromCycle : Int) (isEmpty : Bool) : 
         pure ({ s with base := { s.base with mode := .flushW i seq pc fromCycle isEmpty } }, .running)
       else goFlushW70 s seq pc fromCycle isEmpty n (i + 1)
 
+/-- `controlUnit.cycle(cycle)` on the base state `b` (fetch and decode done).  MVP-7.1:
+`if u.msi.staleState { u.msiStatesCopy = u.msi.copyState(); u.msi.staleState = false; return }` — the rest of the control
+cycle is skipped, `pushedRunnersInPreviousCycle` keeps the runners of the cycle before -/
+def controlStep (s : State) (b : Model.Mvp61.State) : M State :=
+  if b.v71 && s.msi.stale then
+    pure { s with base := { b with msiCopy := s.msi.states.map fun e => (e.1, match e.2 with
+                              | .invalid => 0 | .shared => 1 | .modified => 2) },
+                  msi := { s.msi with stale := false } }
+  else do
+    let b ← Model.Mvp61.controlCycle b
+    pure { s with base := b }
+
 /-- one tick, panics still inside `M` -/
 def cycleM (app : App) (s : State) : M (State × Event) :=
   if s.drain then do
@@ -641,7 +1093,7 @@ def cycleM (app : App) (s : State) : M (State × Event) :=
     let snoopBusy := s.ccs.any fun cc => !cc.snoop.isEmpty
     let s ← snoopAll s
     let (s, busy) ← eusCycleDrain app s.base.eus.length 0 s false
-    if snoopBusy || busy then pure (s, .running) else finish70 s .offEnd
+    if snoopBusy || busy then pure (s, .running) else if s.msi.v80 then finish80 s .offEnd else finish70 s .offEnd
   else
   match s.base.mode with
   | .normal => do
@@ -651,8 +1103,8 @@ def cycleM (app : App) (s : State) : M (State × Event) :=
                       executeBus := b.executeBus.connect c, writeBus := b.writeBus.connect c }
     let b ← Model.Mvp61.fetchCycle app b
     let b ← Model.Mvp61.decodeCycle app b
-    let b ← Model.Mvp61.controlCycle b
-    let s := { s with base := b }
+    let s ← controlStep s b
+    let b := s.base
     if b.mapOrder.isSome then pure (s, .done (.panic mapOrderMsg))
     else do
     let s ← snoopAll s
